@@ -3,9 +3,21 @@
    an error: not success, not a panic. Unbounded in the state size; proved from two facts about
    each decoder: reading p successfully implies reading p ++ q gives the same result with q left
    over, and decoders never panic. Proved: Count-Min, HyperLogLog, cuckoo filter, Top-K, Bloom.
-   JSON documents: every strict prefix of the implementation's own image is fed to Import by
-   the correspondence harness (exhaustive per state); the JSON statement (every strict prefix
-   of `{...}` is unbalanced) is not yet a theorem. *)
+   JSON documents, at the level of TEXT (Model/JsonText.v): a document is an ordered tree whose
+   strings and keys carry their escaped source text and whose numbers / literals carry their
+   literal text; jprint writes the compact form encoding/json writes. THEOREM
+   (C18_json_strict_prefix_not_complete): for every well-formed object or array, no strict prefix
+   of its text is a complete JSON text for the structural scanner (nesting depth outside strings
+   back at 0, no string open, text not empty) -- between the opening and the closing bracket the
+   depth is at least 1, whatever the strings contain -- while the whole text is complete. Tie to
+   the code, on every run (suite json-text, machine 13): the implementation's Export bytes of all
+   ten kinds of structure are split into raw tokens, the model prints the tree and must give back
+   exactly those bytes and find the tree a well-formed object (so the exported text IS the print of
+   such a value); and the set of prefix lengths encoding/json accepts (json.Valid, which Unmarshal
+   runs first) must equal the set the model's scanner calls complete, for every prefix of every
+   document (so the acceptance condition used in the theorem is validated, not assumed). Every
+   strict prefix of the implementation's own image is also fed to Import by the persistence
+   suites (exhaustive per state). *)
 From GX.Model Require Import Base CMS Bloom HLL Cuckoo Heap TopK Codec.
 From GX.Proofs Require Import ListLemmas CodecProofs BloomCodec.
 
@@ -36,3 +48,33 @@ Print Assumptions C18_hll_truncated_rejected.
 Print Assumptions C18_cuckoo_truncated_rejected.
 Print Assumptions C18_topk_truncated_rejected.
 Print Assumptions C18_bloom_truncated_rejected.
+
+(* ---------- JSON documents as text ---------- *)
+From GX.Model Require Import JsonText.
+From GX.Proofs Require JsonTextProofs.
+
+Theorem C18_json_strict_prefix_not_complete : forall v k,
+  jwf v = true -> JsonTextProofs.is_container v = true ->
+  (k < length (jprint v))%nat -> jcomplete (firstn k (jprint v)) = false.
+Proof. exact JsonTextProofs.strict_prefix_not_complete. Qed.
+Print Assumptions C18_json_strict_prefix_not_complete.
+
+(* between its brackets an object or array is at nesting depth >= 1 (the reason) *)
+Theorem C18_json_inside_depth : forall v, jwf v = true -> JsonTextProofs.is_container v = true ->
+  forall p q, jprint v = p ++ q -> p <> [] -> q <> [] -> (1 <= j_depth (jscan jinit p))%nat.
+Proof. exact JsonTextProofs.container_prefix_depth. Qed.
+Print Assumptions C18_json_inside_depth.
+
+Theorem C18_json_whole_text_complete : forall v,
+  jwf v = true -> JsonTextProofs.is_container v = true -> jcomplete (jprint v) = true.
+Proof. exact JsonTextProofs.whole_text_complete. Qed.
+Print Assumptions C18_json_whole_text_complete.
+
+(* non-vacuity: a document with an escaped quote and brackets inside a string, a nested array and
+   an empty object is well-formed; its text is what one expects; only the whole text is complete *)
+Example C18_json_premises_hold :
+  let v := JObj (FCons [107] (JStr [97; 92; 34; 125; 93]) (FCons [109] (JArr (JCons (JAtom [49]) (JCons (JObj FNil) JNil))) FNil)) in
+  jwf v = true /\ JsonTextProofs.is_container v = true /\
+  jprint v = [123; 34; 107; 34; 58; 34; 97; 92; 34; 125; 93; 34; 44; 34; 109; 34; 58; 91; 49; 44; 123; 125; 93; 125] /\
+  complete_prefixes jinit 0 (jprint v) = [24%N].
+Proof. vm_compute. repeat split; reflexivity. Qed.
